@@ -49,8 +49,13 @@ pub mod env {
         open spec fn as_ref_spec(&self) -> &str { *self }
         fn as_ref(&self) -> (r: &str) { *self }
     }
+    /// `<String as AsRef<str>>::as_ref`: the string's own contents
+    pub uninterp spec fn string_as_str(s: &String) -> &str;
+    pub broadcast axiom fn ax_string_as_str(s: &String)
+        ensures #[trigger] string_as_str(s)@ == s@;
     impl AsRef<str> for String {
-        open spec fn as_ref_spec(&self) -> &str { self.spec_as_str() }
+        open spec fn as_ref_spec(&self) -> &str { string_as_str(self) }
+        #[verifier::external_body]
         fn as_ref(&self) -> (r: &str) { self.as_str() }
     }
     /// core: `impl<T> From<T> for T { fn from(t: T) -> T { t } }` (vstd has no specification for it)
@@ -136,6 +141,7 @@ pub mod unit {
     use vstd::utf8::*;
     use super::rt::*;
     use super::env::*;
+    broadcast use ax_string_as_str;
 
     /*@item radix-common/src/data/scrypto/model/non_fungible_local_id.rs :: const NON_FUNGIBLE_LOCAL_ID_MAX_LENGTH
     @*/
